@@ -29,6 +29,7 @@ EXPLANATION = (
     "Round 7: (OPTIONS) the caller's objective and outer-product option reach the DP as given; (PRESIMP) the batch-index simplification compares the index's carriers with the number of tensors, never the appearance table. "
     'Round 8: (OPTIONS) also the network (inputs, output, size_dict) reaches the processor as given. '
     "Round 8 (engine E9): (COSTEVAL, shared with C18-PUREFNS) the step-cost functions, evaluated on a bounded family, return their objectives' definitions and leave the surviving legs behind. "
+    "Round 9 (engine E9): (OPTIMALEVAL) the dynamic programme's source is evaluated on a bounded family of connected networks for every objective, both search_outer values and two caps, and its result is compared with the minimum over all binary trees found by an independent enumeration. "
 )
 ASSUMPTIONS = (
     "step costs are monotone (a tree's score is >= the scores of its subtrees), which is "
@@ -1170,4 +1171,185 @@ def rule_costeval(ctx):
                         lambda i: "compute_con_cost" in i.construct or "compute_contracted" in i.construct, 7)
 
 
-RULES = [rule_costeval, rule_options, rule_presimp, rule_costfn, rule_dp, rule_enum, rule_cap, rule_sorted, rule_factor]
+def _net_tables(inputs, output, sizes):
+    """index numbering, sorted (index, count) legs per tensor and global appearance counts, as the processor builds them"""
+    order = []
+    for t in inputs:
+        for ix in t:
+            if ix not in order:
+                order.append(ix)
+    num = {ix: i for i, ix in enumerate(order)}
+    app = [0] * len(order)
+    legs = []
+    for t in inputs:
+        d = {}
+        for ix in t:
+            d[num[ix]] = d.get(num[ix], 0) + 1
+            app[num[ix]] += 1
+        legs.append(tuple(sorted(d.items())))
+    for ix in output:
+        app[num[ix]] += 1
+    return legs, app, [sizes[ix] for ix in order]
+
+
+def _merge(a, b, app):
+    d = dict(a)
+    for ix, c in b:
+        d[ix] = d.get(ix, 0) + c
+    union = sorted(d.items())
+    surv = tuple((ix, c) for ix, c in union if c < app[ix])
+    return union, surv
+
+
+def _best_by_enumeration(legs, app, sz, objective, factor, outer):
+    """minimum of the objective over all binary trees (outer-product-free ones only unless ``outer``)"""
+    import functools
+
+    n = len(legs)
+
+    def prod(ls):
+        p_ = 1
+        for ix, _c in ls:
+            p_ *= sz[ix]
+        return p_
+
+    @functools.lru_cache(None)
+    def node(mask):
+        """(legs of the subtree over mask) - independent of the tree shape"""
+        d = {}
+        for i in range(n):
+            if mask >> i & 1:
+                for ix, c in legs[i]:
+                    d[ix] = d.get(ix, 0) + c
+        return tuple((ix, c) for ix, c in sorted(d.items()) if c < app[ix])
+
+    def step_cost(l, r_):
+        a, b = node(l), node(r_)
+        union, surv = _merge(a, b, app)
+        return prod(union), prod(surv), bool({ix for ix, _ in a} & {ix for ix, _ in b})
+
+    @functools.lru_cache(None)
+    def best(mask):
+        if mask & (mask - 1) == 0:
+            return 0
+        res = None
+        sub = (mask - 1) & mask
+        while sub:
+            other = mask ^ sub
+            if sub < other:
+                f_, s_, shared = step_cost(sub, other)
+                if outer or shared:
+                    bl, br = best(sub), best(other)
+                    if bl is not None and br is not None:
+                        local = {"flops": f_, "write": s_, "size": s_, "max": f_, "combo": f_ + factor * s_, "limit": max(f_, factor * s_)}[objective]
+                        tot = max(bl, br, local) if objective in ("size", "max") else bl + br + local
+                        res = tot if res is None else min(res, tot)
+            sub = (sub - 1) & mask
+        return res
+    return best((1 << n) - 1)
+
+
+def _value_of_pairs(pairs, legs, app, sz, objective, factor):
+    """objective value of the contraction given as a list of (i, j) node merges (ids as the processor hands them out)"""
+    nodes = dict(enumerate(legs))
+    nxt = len(legs)
+    tot = 0
+
+    def prod(ls):
+        p_ = 1
+        for ix, _c in ls:
+            p_ *= sz[ix]
+        return p_
+    for i, j in pairs:
+        union, surv = _merge(nodes.pop(i), nodes.pop(j), app)
+        f_, s_ = prod(union), prod(surv)
+        local = {"flops": f_, "write": s_, "size": s_, "max": f_, "combo": f_ + factor * s_, "limit": max(f_, factor * s_)}[objective]
+        tot = max(tot, local) if objective in ("size", "max") else tot + local
+        nodes[nxt] = surv
+        nxt += 1
+    return tot, len(nodes)
+
+
+def rule_optimaleval(ctx):
+    """(engine E9) The dynamic programme itself.  `optimize_optimal_connected` — with the six step-cost functions it
+    dispatches to — is evaluated by the engine's mini-evaluator on a family of connected networks that have nothing
+    to pre-simplify (rings, chains, stars around a hyper index, a complete graph, networks whose optimum contains an
+    outer product; three to five tensors, mixed dimensions, with and without output indices), for every objective,
+    both `search_outer` values and two initial caps; the merges it performs are replayed with the definitions and
+    the value is compared with the minimum over **all** binary trees (all outer-product-free trees when outer
+    products are not searched), found by an independent enumeration over subsets."""
+    import types
+
+    from ..engine.minieval import Mini, NoEval, Raised
+
+    r = RuleResult("C09-OPTIMALEVAL", "the DP's result is the minimum over all trees on a bounded family of networks", 1)
+    cp = ctx.p.cls(C.BASIC, "ContractionProcessor")
+    f = cp.methods.get("optimize_optimal_connected")
+    m = ctx.p.modules[C.BASIC]
+    names = ("compute_con_cost_flops", "compute_con_cost_max", "compute_con_cost_size", "compute_con_cost_write",
+             "compute_con_cost_combo", "compute_con_cost_limit")
+    fs = {g.name: g.node for g in m.all_funcs if g.cls is None and g.name in names}
+    C.require(f is not None and len(fs) == 6, "the optimal finder or its step-cost functions were not found")
+    k = ctx.key(f, "C09-OPTIMALEVAL")
+    nets = [
+        (("ab", "bc", "ca"), "", dict(a=2, b=3, c=5)),
+        (("ab", "bc", "cd"), "ad", dict(a=2, b=7, c=3, d=2)),
+        (("i", "j", "ijk"), "k", dict(i=2, j=2, k=8)),
+        (("ah", "bh", "ch"), "abc", dict(a=2, b=3, c=2, h=4)),
+        (("ab", "bc", "cd", "da"), "", dict(a=2, b=5, c=3, d=4)),
+        (("ab", "ac", "ad", "bc", "bd", "cd"), "", dict(a=2, b=2, c=3, d=2)),
+        (("ab", "bc", "cd", "de"), "ae", dict(a=3, b=2, c=6, d=2, e=3)),
+        (("ab", "bc", "cd", "de", "ea"), "", dict(a=2, b=3, c=2, d=4, e=3)),
+        (("ax", "bx", "ab", "xc"), "c", dict(a=2, b=3, x=2, c=5)),
+        (("a", "b", "abc", "cd"), "d", dict(a=2, b=3, c=7, d=2)),
+    ]
+    objectives = [("flops", None), ("size", None), ("write", None), ("max", None), ("combo", 64), ("limit", 64), ("combo-2", 2), ("limit-3", 3)]
+    bad = None
+    n = 0
+    try:
+        for inputs, output, sizes in nets:
+            legs, app, sz = _net_tables(inputs, output, sizes)
+            for oname, factor in objectives:
+                base = oname.split("-")[0]
+                for outer in (False, True):
+                    want = _best_by_enumeration(tuple(legs), tuple(app), tuple(sz), base, factor or 0, outer)
+                    if want is None:
+                        continue  # no outer-product-free tree exists: the finder is not asked for one
+                    for cap in (2, 1000):
+                        n += 1
+                        pairs = []
+                        state = {"next": len(legs)}
+
+                        def contract_nodes(i, j, _pairs=pairs, _state=state):
+                            _pairs.append((i, j))
+                            _state["next"] += 1
+                            return _state["next"] - 1
+                        me = types.SimpleNamespace(nodes=dict(enumerate(legs)), appearances=list(app), sizes=list(sz), contract_nodes=contract_nodes)
+                        fname = {"flops": "compute_con_cost_flops", "max": "compute_con_cost_max", "size": "compute_con_cost_size",
+                                 "write": "compute_con_cost_write", "combo": "compute_con_cost_combo", "limit": "compute_con_cost_limit"}[base]
+                        ext = {"parse_minimize_for_optimal": lambda mn, _f=fname, _k=factor: ("minifn", _f, ({"factor": _k} if _k is not None else {}))}
+                        try:
+                            Mini(fs, budget=3_000_000, externals=ext).call(f.node, [me, list(range(len(legs))), oname, cap, outer])
+                        except Raised as e:
+                            bad = bad or (inputs, output, sizes, oname, outer, f"raises ({e.text})")
+                            continue
+                        except NoEval:
+                            raise
+                        except Exception as e:
+                            bad = bad or (inputs, output, sizes, oname, outer, f"raises ({type(e).__name__}: {e})")
+                            continue
+                        got, left = _value_of_pairs(pairs, legs, app, sz, base, factor or 0)
+                        if left != 1:
+                            bad = bad or (inputs, output, sizes, oname, outer, f"{left} tensors are left")
+                        elif got != want:
+                            bad = bad or (inputs, output, sizes, oname, outer, f"the merges {pairs} cost {got}, the best tree costs {want}")
+    except NoEval as e:
+        raise AnalysisError(f"optimize_optimal_connected: not evaluable by the mini-evaluator ({e})")
+    if bad:
+        r.violation(k, f.loc, f"for `{','.join(bad[0])}->{bad[1]}` with dimensions {bad[2]}, minimize={bad[3]!r}, search_outer={bad[4]}: {bad[5]}")
+    else:
+        r.ok(k, f.loc, f"{n} (network, objective, search_outer, cap) cases: the result is the minimum over all trees")
+    return r
+
+
+RULES = [rule_optimaleval, rule_costeval, rule_options, rule_presimp, rule_costfn, rule_dp, rule_enum, rule_cap, rule_sorted, rule_factor]
